@@ -154,7 +154,7 @@ def run_vdrive(build, script_text, work, *, asan=False, mtx=True, heap=False, ti
     os.chmod(work, 0o777)
     confdir = os.path.join(work, "conf")
     os.makedirs(confdir, exist_ok=True)
-    os.chmod(confdir, 0o755)
+    os.chmod(confdir, 0o777)
     spath = os.path.join(work, "script")
     lpath = os.path.join(work, "ev.log")
     with open(spath, "w") as f:
